@@ -238,8 +238,11 @@ def read (s : St) : Res (List UInt8 × St) :=
     else
       -- copy_from_history(code - 8)
       let c := code - 8
+      -- history_get_count
       (if c < 15 then (.ok (some (c + 2), s.bits) : Res (Option Nat × Bits))
-       else Pma.decodeVarLen "pm2: copy_decode[code - 15]" Gen.pm2CopyDecode s.bits (c - 15)) >>= fun cnt =>
+       else if c - 15 < Gen.pm2CopyDecode.length then
+         Pma.decodeVarLen "pm2: copy_decode[code - 15]" Gen.pm2CopyDecode s.bits (c - 15)
+       else .ok (none, s.bits)) >>= fun cnt =>
       (historyGetOffset { s with bits := cnt.2 } c) >>= fun off =>
       let s := { s with bits := off.2 }
       match cnt.1, off.1 with
